@@ -16,6 +16,9 @@ def main(tier):
     footprint.polygon_boundary(P, rep)
     rep.assumptions.append("nearest-ness of the kd search result, polygon exactness, Newton convergence are NOT decided (numeric); the conversion round trip is decided "
                            "as an algebraic identity only (no rounding)")
+    # the answer does not depend on what was queried before (no cache that outlives a query: a necessary condition for a
+    # statement about 'all worlds and all points', which includes a second world in the same process)
+    pure.run(P, rep, pure.query_roots(P))
     rep.explanation = ("Computer-algebra identity between the closest-point search's cubic coefficients and the Bernstein form evaluated by "
                        "operator(), interval check of the acos clamp, structure of the kd-tree search (near child unconditional, far child "
                        "pruned on the split-axis difference, same mid in build and search).")
